@@ -229,6 +229,10 @@ def c20(ctx, api):
         text = text.replace('CONSTANTS\n', 'CONSTANTS\n  Pool <- PoolOpsBig\n')
         st, summ = api['run_tlc_to_harness'](ctx, 'ops', 'GenOps', text, timeout=3000)
         acc.add('GenOps operator pairs on 1000 documents (boolean combinations)', st, summ)
+    st, summ = api['run_tlc_to_harness'](ctx, 'arith', 'GenArith',
+                                         cfg(constants={'Emit': 'TRUE', 'Prop': '"C20"', 'Big': tb(ctx['tier'] == 'thorough')}), timeout=3000)
+    acc.add('GenArith: == != < <= > >= and contains on operands up to 34 digits (2^53, 2^53+1, 2^63 ...) carried as json.Number, decimal, '
+            'int64, uint64, float64 in mixed pairs (oracle: Decimal.tla)', st, summ)
     return acc.result(RULE_PINNED, extra={'model_checks': ['Reflexive', 'Symmetric', 'Transitive', 'TypeStrict',
                                                            'NeIsNegation', 'ContainsIsExistsEq', 'FiveFalseLike',
                                                            'AndOrReturnOperand']})
@@ -535,6 +539,8 @@ def c09(ctx, api):
     # every generated case of the other machines also runs under the per-case time budget (hang detection)
     st, summ = api['run_tlc_to_harness'](ctx, 'slices', 'GenSlice', cfg(constants={'Emit': 'TRUE', 'Prop': '"C09"', 'MaxN': 3}), timeout=3000)
     acc.add('GenSlice with 64-bit limits under the per-case budget of 3 s', st, summ)
+    st, summ = api['run_tlc_to_harness'](ctx, 'intarg', 'GenIntArg', cfg(constants={'Emit': 'TRUE', 'Prop': '"C09"'}), timeout=1500)
+    acc.add('GenIntArg: numerals with exponents far outside every numeric range in integer-argument positions, under the per-case budget', st, summ)
     st, text = api['run_tlc_only'](ctx, 'lexmachine', 'LexMachine', open(os.path.join(ctx['root'], 'spec', 'LexMachine.cfg')).read(), timeout=1500)
     if st['errors'] or st['rc'] != 0:
         raise api['Broken']('LexMachine model check failed: %s' % st['errors'][:3])
@@ -574,6 +580,11 @@ def c03(ctx, api):
     acc.add('nesting families (parentheses, !, index, flatten, pipe, multi-select, unary minus, ||) to depth %s' % ('5,000,000' if thorough else '100,000'), st, summ)
     st, summ = api['run_tlc_to_harness'](ctx, 'call', 'GenCall', cfg(constants={'Emit': 'TRUE', 'Prop': '"C03"', 'Small': 15 if thorough else 9}), timeout=3000)
     acc.add('GenCall: every function with every pool tuple (integer arguments at 0, +-1, fractions) -- a panic is outside every admissible set', st, summ)
+    st, summ = api['run_tlc_to_harness'](ctx, 'sort', 'GenSort',
+                                         cfg(constants={'Emit': 'TRUE', 'Prop': '"C03"', 'Lengths': '{0, 1, 2, 13, 33}', 'Seeds': '{%d}' % ctx['seed']}), timeout=1500)
+    acc.add('GenSort incl. the re-entrancy family (expression-reference functions nested in each other)', st, summ)
+    st, summ = api['run_tlc_to_harness'](ctx, 'intarg', 'GenIntArg', cfg(constants={'Emit': 'TRUE', 'Prop': '"C03"'}), timeout=1500)
+    acc.add('GenIntArg: integer arguments in every numeric spelling incl. exponents far outside every range', st, summ)
     st, summ = api['run_tlc_to_harness'](ctx, 'cost', 'GenCost', cfg(constants={'Emit': 'TRUE', 'Prop': '"C03"'}), timeout=3000,
                                          harness_args=['-only', 'cost', '-workers', '8'])
     acc.add('GenCost: integer parameters at the 64-bit limits in every position', st, summ)
